@@ -354,6 +354,12 @@ class IOPort(BaseIOPort):
     def _receive(self, block=True):
         return self.input.receive(block=block)
 
+    def receive(self, block=True):
+        # Forwarded as a whole, so that the input port's lock applies.
+        # (The wrapper shares the input port's message queue but has no
+        # lock of its own.)
+        return self.input.receive(block=block)
+
 
 class EchoPort(BaseIOPort):
     def _send(self, message):
